@@ -109,6 +109,9 @@ func sweepAlphabet() []CacheOp {
 // removed to surviving entries are crossed in both directions.
 func genCacheBulk(rng *rand.Rand, sc *CacheScen) {
 	n := pickInt(rng, 70, 100, 130, 200)
+	if rng.Intn(40) == 0 {
+		n = pickInt(rng, 1100, 4200, 5000) // thresholds in the thousands exist, too
+	}
 	key := func(i int) world.Spec {
 		return world.Spec{NS: "n1", Name: fmt.Sprintf("bulk%03d", i), Labels: map[string]string{"app": pick(rng, "a", "a", "b")}}
 	}
